@@ -833,19 +833,23 @@ class HexaryTrie:
         scratch_db = ScratchDB(self.db)
         with scratch_db.batch_commit(do_deletes=self.is_pruning):
             Trie = type(self)
+            if self.is_pruning:
+                # The batch counts references on its own copy, so that a batch which
+                # is aborted by an exception leaves this trie's counts untouched.
+                batch_ref_count = self._ref_count.copy()
+            else:
+                batch_ref_count = None
             memory_trie = Trie(
-                scratch_db, self.root_hash, prune=True, ref_count=self._ref_count
+                scratch_db, self.root_hash, prune=True, ref_count=batch_ref_count
             )
             yield memory_trie
 
-        if self.root_hash != memory_trie.root_hash:
-            try:
-                raw_root_node = memory_trie.get_node(memory_trie.root_hash)
-            except KeyError:
-                # if the new root node is missing, then we shouldn't crash here
-                self.root_hash = memory_trie.root_hash
-            else:
-                self.root_hash = self._set_raw_node(raw_root_node)
+        if self.is_pruning:
+            # The batch was committed, so its reference counts are now the truth
+            self._ref_count = memory_trie._ref_count
+
+        # The batch already stored (and counted) its root node, so only adopt the hash
+        self.root_hash = memory_trie.root_hash
 
     @contextlib.contextmanager
     def at_root(self, at_root_hash):
